@@ -346,7 +346,7 @@ def run(ctx):
         t_list = txt.tolist()
         ctx.count("driver_calls:float_to_strings")
         for x, t in zip(xs, t_list):
-            ctx.check("float-format", float(t) == x, "float_to_strings/text-does-not-denote-value", "float_to_strings(%r) gave %r" % (x, t),
+            ctx.check("float-format", float(t) == x and math.copysign(1.0, float(t)) == math.copysign(1.0, x), "float_to_strings/text-does-not-denote-value", "float_to_strings(%r) gave %r" % (x, t),
                       {"value": x, "text": t}, x)
         back = np.asarray(strops.str_to_float(txt)).tolist()
         for x, t, b in zip(xs, t_list, back):
@@ -374,6 +374,10 @@ def run(ctx):
                 xs.append(rng.uniform(-1, 1) * 10.0 ** rng.randint(-200, 200))
             else:
                 xs.append(float("%de%d" % (rng.randint(1, 99), rng.randint(-30, 30))))
+        if rng.random() < 0.25:
+            # values that are equal as numbers but not as doubles (the two zeros), and the same value several times in one batch
+            xs += [rng.choice([0.0, -0.0]), rng.choice([0.0, -0.0, xs[0]]), -xs[0]]
+            rng.shuffle(xs)
         call(case_roundtrip, xs)
         if rng.random() < 0.15:
             # batches of whole numbers of every magnitude up to and beyond the int64 / uint64 ranges, and negative zero
